@@ -351,23 +351,58 @@ theorem checkWorld_error {cfg : Cfg} {w : World} {root : String} {e : ErrKind}
     (h : checkFile cfg w (w.length + 1) [] root false = .error e) : checkWorld cfg w root = .error e := by
   simp [checkWorld, h]
 
+/-! ### resolution of one import statement (`_resolve_imported_file`) -/
+theorem resolve_direct_none (w : World) (c : String) : (Import.direct c).resolve w = none ↔ w.isFile c = false := by
+  unfold Import.resolve; cases h : w.isFile c <;> simp [h]
+
+/-- a lookup-style import is missing iff no lookup path has it — whatever was found for the imports before it -/
+theorem resolve_lookup_none (w : World) (cs : List String) :
+    (Import.lookup cs).resolve w = none ↔ ∀ c ∈ cs, w.isFile c = false := by
+  unfold Import.resolve; simp [List.find?_eq_none]
+
+/-- the first lookup path that has the file wins -/
+theorem resolve_lookup_first (w : World) (pre post : List String) (c : String) (hpre : ∀ x ∈ pre, w.isFile x = false)
+    (hc : w.isFile c = true) : (Import.lookup (pre ++ c :: post)).resolve w = some c := by
+  unfold Import.resolve
+  induction pre with
+  | nil => simp [hc]
+  | cons x r ih =>
+    have hx := hpre x (List.mem_cons_self ..)
+    simp only [List.cons_append, List.find?, hx]
+    exact ih fun y hy => hpre y (List.mem_cons_of_mem _ hy)
+
+theorem resolve_invalid (w : World) : Import.invalid.resolve w = none := rfl
+
+/-- every import statement of a file is resolved on its own: the k-th resolution depends on the k-th statement only -/
+theorem imports_resolved_independently (w : World) (f : File) (k : Nat) :
+    (f.resolved w)[k]? = (f.imports[k]?).map (Import.resolve w) := by
+  unfold File.resolved; simp
+
 /-- an import statement of the compiled file that resolves to no file -/
 theorem rejects_missing_import (cfg : Cfg) (w : World) (root : String) (f : File) (hf : w.get? root = some f)
-    (hs : f.isSsbScript = false) (hm : none ∈ f.imports) :
+    (hs : f.isSsbScript = false) (hm : ∃ i ∈ f.imports, i.resolve w = none) :
     ∃ e, checkWorld cfg w root = .error e ∧ e ∈ documented := by
   refine ⟨.ssbCompilerError, checkWorld_error ?_, by simp [documented]⟩
-  have : f.imports.any Option.isNone = true := List.any_eq_true.mpr ⟨none, hm, rfl⟩
+  obtain ⟨i, hi, hn⟩ := hm
+  have : (f.resolved w).any Option.isNone = true :=
+    List.any_eq_true.mpr ⟨none, List.mem_map.mpr ⟨i, hi, hn⟩, rfl⟩
   simp [checkFile, hf, hs, this]
+
+/-- … at whatever position of the import list, after whatever imports that were found -/
+theorem rejects_missing_import_at (cfg : Cfg) (w : World) (root : String) (f : File) (hf : w.get? root = some f)
+    (hs : f.isSsbScript = false) (pre post : List Import) (i : Import) (hi : f.imports = pre ++ i :: post)
+    (hn : i.resolve w = none) : ∃ e, checkWorld cfg w root = .error e ∧ e ∈ documented :=
+  rejects_missing_import cfg w root f hf hs ⟨i, by simp [hi], hn⟩
 
 /-- if the compilation of an imported file fails, so does the importing compilation, with a documented class -/
 theorem rejects_failing_import (cfg : Cfg) (w : World) (root b : String) (hi : Imports w root b)
     (hb : ∃ e, checkFile cfg w w.length [root] b true = .error e) :
     ∃ e, checkWorld cfg w root = .error e ∧ e ∈ documented := by
   obtain ⟨f, hf, hs, hm⟩ := hi
-  obtain ⟨e, he⟩ := importAll_fail (fun s => checkFile cfg w w.length ([] ++ [root]) s true) [] b f.imports [] hm (Or.inr hb)
-  by_cases hn : f.imports.any Option.isNone = true
+  obtain ⟨e, he⟩ := importAll_fail (fun s => checkFile cfg w w.length ([] ++ [root]) s true) [] b (f.resolved w) [] hm (Or.inr hb)
+  by_cases hn : (f.resolved w).any Option.isNone = true
   · exact ⟨.ssbCompilerError, checkWorld_error (by simp [checkFile, hf, hs, hn]), by simp [documented]⟩
-  · refine ⟨e, checkWorld_error ?_, import_phase_doc cfg w w.length [] root f.imports e he⟩
+  · refine ⟨e, checkWorld_error ?_, import_phase_doc cfg w w.length [] root (f.resolved w) e he⟩
     simp only [checkFile, hf, hs, Bool.false_eq_true, if_false, hn, he]
 
 /-- cyclic imports: `root = k₀ imports k₁ imports … imports kₙ` and `kₙ` is one of `k₀ … kₙ₋₁` -/
@@ -413,11 +448,11 @@ theorem rejects_ssbscript_import (cfg : Cfg) (w : World) (root s : String)
   rejects_failing_import cfg w root s hi (macrosOnly_fails_of_routines cfg w s g hg (Or.inl hr) _ _)
 
 def exWorldRoutinesInImport : World :=
-  [("main.exps", { imports := [some "lib.exps"], routines := [rt (.cons (.macroCall "m" 0) .nil)] }),
+  [("main.exps", { imports := [.direct "lib.exps"], routines := [rt (.cons (.macroCall "m" 0) .nil)] }),
    ("lib.exps", { macros := [⟨"m", [], .cons (.op false) .nil⟩], routines := [rt (.cons (.op false) .nil)] })]
 
 def exWorldSsbScriptImport : World :=
-  [("main.exps", { imports := [some "lib.exps"], routines := [rt (.cons (.op false) .nil)] }),
+  [("main.exps", { imports := [.direct "lib.exps"], routines := [rt (.cons (.op false) .nil)] }),
    ("lib.exps", { isSsbScript := true, routines := [rt (.cons (.op false) .nil)] })]
 
 /-- a routine made of calls of label-only macros compiles (to an empty routine) since the repair of strip_last_label -/
@@ -491,11 +526,22 @@ example : checkLocal {} [] exMacroJump false = .error .ssbCompilerError := by de
 -- a macro that is never expanded may hold an unserved jump
 example : checkLocal {} [] { macros := [⟨"m", [], one (.jump "x")⟩], routines := [rt (one (.op false))] } false = .ok () := by decide
 def exCycleWorld : World :=
-  [("a", { imports := [some "b"], routines := [rt (one (.op false))] }), ("b", { imports := [some "a"] })]
+  [("a", { imports := [.direct "b"], routines := [rt (one (.op false))] }), ("b", { imports := [.direct "a"] })]
 example : HasImportCycle exCycleWorld "a" :=
   ⟨"b", ["a"], ⟨⟨_, rfl, rfl, by decide⟩, ⟨_, rfl, rfl, by decide⟩, trivial⟩, by decide⟩
 example : checkWorld {} exCycleWorld "a" = .error .ssbCompilerError := by decide
-example : checkWorld {} [("a", { imports := [some "a"] })] "a" = .error .ssbCompilerError := by decide
+example : checkWorld {} [("a", { imports := [.direct "a"] })] "a" = .error .ssbCompilerError := by decide
+-- a lookup-style import that no lookup path has, AFTER an import that was found; first lookup path wins
+def exWorldLookup : World :=
+  [("main.exps", { imports := [.direct "a.exps", .lookup ["l1/nope.exps", "l2/nope.exps"]], routines := [rt (one (.op false))] }),
+   ("a.exps", { macros := [⟨"a", [], one (.op false)⟩] })]
+example : checkWorld {} exWorldLookup "main.exps" = .error .ssbCompilerError := by decide
+example : checkWorld {} [("main.exps", { imports := [.lookup ["l1/b.exps", "l2/b.exps"]], routines := [rt (one (.macroCall "second" 0))] }),
+    ("l1/b.exps", { macros := [⟨"first", [], one (.op false)⟩] }), ("l2/b.exps", { macros := [⟨"second", [], one (.op false)⟩] })] "main.exps"
+    = .error .ssbCompilerError := by decide
+example : checkWorld {} [("main.exps", { imports := [.lookup ["l1/b.exps", "l2/b.exps"]], routines := [rt (one (.macroCall "second" 0))] }),
+    ("l2/b.exps", { macros := [⟨"second", [], one (.op false)⟩] })] "main.exps" = .ok () := by decide
+example : checkWorld {} [("main.exps", { imports := [.lookup []] })] "main.exps" = .error .ssbCompilerError := by decide
 example : checkWorld {} exWorldRoutinesInImport "main.exps" = .error .ssbCompilerError := by decide
 example : checkWorld {} exWorldSsbScriptImport "main.exps" = .error .ssbCompilerError := by decide
 example : checkWorld {} [("main.exps", { isSsbScript := true })] "main.exps" = .ok () := by decide
